@@ -59,6 +59,13 @@ type qinput struct {
 	// queue; Fails: which callbacks return an error (consumed by successive hand-overs).
 	Wrapper bool   `json:"wrapper,omitempty"`
 	Fails   []bool `json:"fails,omitempty"`
+	// Reconciler: drive the reconciler's own queue with all its producers of requests:
+	// Sources per arrival (ingress | secret | generic | gateway | rejected | leader | unleader),
+	// Outcomes of successive reconciliations (ok | err | requeue), RetryNs = ReloadRetry.
+	Reconciler bool     `json:"reconciler,omitempty"`
+	Sources    []string `json:"sources,omitempty"`
+	Outcomes   []string `json:"outcomes,omitempty"`
+	RetryNs    int64    `json:"retry_ns,omitempty"`
 }
 
 type wentry struct {
@@ -136,14 +143,24 @@ type qrun struct {
 	stuck     string
 	mu        sync.Mutex
 	whenCalls int
+	lastItem  int
+	lenFn     func() int // reconciler cases: the queue lives behind the hook
 	adds      [][2]int64 // wrapper cases: item, instant of WorkQueue.Add / of a failed callback
 }
 
 // When is the limiter handed to client-go: the real limiter seen from the current virtual instant.
-func (r *qrun) When(item int) time.Duration {
+func (r *qrun) When(item int) time.Duration { return r.consult(item, nil) }
+
+// consult runs the real limiter once, seen from the current virtual instant; inner, when
+// given, is the real When to call (the reconciler hook hands it over per item).
+func (r *qrun) consult(item int, inner func() time.Duration) time.Duration {
 	r.mu.Lock()
 	defer r.mu.Unlock()
 	r.whenCalls++
+	r.lastItem = item
+	if inner != nil {
+		r.l.when = inner
+	}
 	st := r.l.call(r.vlast, r.vnow)
 	if st.Width > int64(maxWidth) && r.stuck == "" {
 		r.stuck = "clock bracket wider than 200us"
@@ -202,6 +219,9 @@ func quiesce() {
 
 func (r *qrun) await(int) int {
 	quiesce()
+	if r.lenFn != nil {
+		return r.lenFn()
+	}
 	return r.q.Len()
 }
 
@@ -483,6 +503,8 @@ func coqQCase(id int, r *qrun, maxD int64) string {
 			ev = fmt.Sprintf("Get %s", hx.Z(e.D))
 		case "done":
 			ev = "Done"
+		case "retry":
+			ev = fmt.Sprintf("Retry %s %s", hx.Nat(e.Item), hx.Z(e.D))
 		}
 		evs = append(evs, hx.Tuple(hx.Z(e.T), ev))
 		o := r.obs[k]
